@@ -305,7 +305,7 @@ theorem initItem_brace (g : Nat) (root : Ty) (top : Bool) (obj : Init) (p : List
     (ht : subTy root p = some t) (hg : growable root top p = false) :
     initItem g root top obj [p] (.lbrace :: inner) fl =
       (initList g t false (braceStart t) (firstCursor t) inner true Flags.none >>= fun sub =>
-        modifyAt root top (fun _ _ => pure (unflex sub.obj)) root [] p obj >>= fun obj' =>
+        modifyAt root top (fun _ _ => pure (defaultMember t (unflex sub.obj))) root [] p obj >>= fun obj' =>
           initList g root top obj' (next root top p.reverse) sub.rest false
             ((fl.join ⟨touched obj p, exprAbove obj p, false⟩).join sub.fl)) := by
   unfold initItem initItemWith
@@ -315,7 +315,7 @@ theorem initItem_brace (g : Nat) (root : Ty) (top : Bool) (obj : Init) (p : List
   | ok sub =>
     simp only [ok_bind, List.any_cons, List.any_nil, Bool.or_false, List.length_singleton, Nat.lt_irrefl, decide_false,
       List.foldlM_cons, List.foldlM_nil]
-    cases modifyAt root top (fun _ _ => pure (unflex sub.obj)) root [] p obj <;> rfl
+    cases modifyAt root top (fun _ _ => pure (defaultMember t (unflex sub.obj))) root [] p obj <;> rfl
 
 theorem initItem_excess (g : Nat) (root : Ty) (top : Bool) (obj : Init) (toks : List ITok) (fl : Flags) :
     initItem g root top obj [] toks fl =
